@@ -117,6 +117,69 @@ def _isinstance(obj, cls):
     return isinstance(obj, cls)
 
 
+def S(x):
+    """a concrete string as an SStr (same characters): every path-like string the code can compare or combine with a
+    symbolic one must be an SStr as well -- a method of a plain `str` called with an SStr argument ('' .startswith(sym))
+    is C code and cannot be intercepted"""
+    return reshim.const(x) if isinstance(x, str) else x
+
+
+def _lost(c):
+    return c.__dict__.get('_c07_lost_error')
+
+
+def _wide_index(v):
+    """SInt.__index__ / __int__ while Env is active: sound concretisation by forking over every feasible value, for up
+    to 128 values (max_results has 100; symex's default is 64).  C callers such as itertools.islice or slice.indices
+    replace ANY exception of __index__ by their own ValueError / TypeError: an engine error raised here is remembered
+    on the context so that it cannot come back disguised as an exception of the code under test."""
+    c = symex.ctx()
+    try:
+        return c.concretize(v, limit=128)
+    except symex.HarnessError as e:
+        c.__dict__['_c07_lost_error'] = e
+        raise
+
+
+def sym_islice(iterable, *args):
+    """itertools.islice whose stop may be symbolic: like the C implementation it asks `taken < stop` before it fetches
+    the next element -- one fork per element instead of one path per value of stop"""
+    import itertools as _it
+    if not any(isinstance(a, symex.SInt) for a in args):
+        return _it.islice(iterable, *args)
+    if len(args) == 1:
+        start, stop, step = 0, args[0], 1
+    else:
+        start, stop, step = (list(args) + [1])[:3]
+        start, step = (0 if start is None else start), (1 if step is None else step)
+    if isinstance(start, symex.SInt) or isinstance(step, symex.SInt) or stop is None:
+        return _it.islice(iterable, *args)          # concretises through __index__
+
+    def gen():
+        it = iter(iterable)
+        i, nxt = 0, start
+        while True:
+            if not bool(nxt < stop):                # forks
+                return
+            try:
+                x = next(it)
+            except StopIteration:
+                return
+            if i == nxt:
+                yield x
+                nxt += step
+            i += 1
+    return gen()
+
+
+class _ItertoolsShim:
+    def __getattr__(self, name):
+        import itertools as _it
+        return getattr(_it, name)
+
+    islice = staticmethod(sym_islice)
+
+
 class Env:
     """symbolic runs only: `re` -> reshim.ReShim and `os` -> symos.OsShim (os.path.* and os.walk on symbolic
     strings over an in-memory tree) in the globals of the four modules under test; engine/sstr.py keeps every
@@ -143,20 +206,35 @@ class Env:
                     self._set(mod, 're', shim_re)
                 if mod.__dict__.get('os') is real_os:
                     self._set(mod, 'os', shim_os)
+            # os.sep & co. as SStr: `subdir + os.sep`, `os.sep.join(parts)` with symbolic operands
+            for holder in (shim_os, shim_os.path):
+                holder.sep, holder.curdir, holder.pardir, holder.extsep = S('/'), S('.'), S('..'), S('.')
+            import itertools as real_itertools
+            for mod in modules_under_test():
+                if mod.__dict__.get('islice') is real_itertools.islice:
+                    self._set(mod, 'islice', sym_islice)
+                if mod.__dict__.get('itertools') is real_itertools:
+                    self._set(mod, 'itertools', _ItertoolsShim())
             for mod in (SM, MD):
                 self._set(mod, 'isinstance', _isinstance)        # SStr is not a subclass of str
             self.keep = reshim.keep_sstr().__enter__()
+            self.saved_sint = (symex.SInt.__index__, symex.SInt.__int__)
+            symex.SInt.__index__ = _wide_index
+            symex.SInt.__int__ = _wide_index
         return self
 
-    def __exit__(self, *a):
+    def __exit__(self, exc_type, exc, tb):
         if self.keep is not None:
             self.keep.__exit__()
             self.keep = None
+            symex.SInt.__index__, symex.SInt.__int__ = self.saved_sint
         for mod, name, old in reversed(self.saved):
             if old is _MISSING:
                 mod.__dict__.pop(name, None)
             else:
                 mod.__dict__[name] = old
+        if self.c.symbolic and _lost(self.c) is not None and (exc_type is None or not issubclass(exc_type, (symex.EngineSignal, symex.HarnessError))):
+            raise symex.HarnessError(f'an engine error was swallowed by C code of the code under test: {_lost(self.c)}')
 
 
 # ------------------------------------------------------------------------------
@@ -322,7 +400,7 @@ def query_kinds(query_tpl: str) -> str:
 # fixture
 # ------------------------------------------------------------------------------
 
-def make_manager(c, names, layout, mx, fill=True):
+def make_manager(c, names, layout, mx, fill=True, mtimes=None):
     settings = Settings(credentials={'username': 'u', 'password': 'p'})
     if c.symbolic:
         # a pydantic field validates on assignment; the symbolic integer is put where the field lives
@@ -330,12 +408,13 @@ def make_manager(c, names, layout, mx, fill=True):
     else:
         settings.searches.receive.max_results = mx
     sm = SM.SharesManager(settings, EventBus(), None)
-    dirs = [MD.SharedDirectory(*d) for d in DIRS]
+    w = S if c.symbolic else (lambda x: x)
+    dirs = [MD.SharedDirectory(*[w(x) for x in d]) for d in DIRS]
     items = []
     if fill:
         for i, name in enumerate(names):
             di, sub = LAYOUTS[layout][i]
-            item = MD.SharedItem(dirs[di], sub, name, 1.0)
+            item = MD.SharedItem(dirs[di], w(sub), name, mtimes[i] if mtimes else 1.0)
             dirs[di].items.add(item)
             items.append(item)
     sm._shared_directories = [d for d in dirs]
@@ -369,7 +448,8 @@ class Disk:
         out = set()
         for i, mtime in sorted(self.present.items()):
             if LAYOUTS[self.layout][i][0] == di:
-                out.add(MD.SharedItem(shared_directory, LAYOUTS[self.layout][i][1], self.names[i], mtime))
+                sub = LAYOUTS[self.layout][i][1]
+                out.add(MD.SharedItem(shared_directory, S(sub) if self.c.symbolic else sub, self.names[i], mtime))
         return out
 
     def scan_all(self):
@@ -428,6 +508,8 @@ def run_query(c, sm, query, sig, tag=''):
     except symex.HarnessError:
         raise
     except Exception as e:
+        if c.symbolic and _lost(c) is not None:
+            raise symex.HarnessError(f'an engine error was swallowed by C code: {_lost(c)} (surfaced as {type(e).__name__}: {e})')
         if c.symbolic and _proxy_error(e):
             raise symex.HarnessError(f'a proxy value reached C code: {type(e).__name__}: {e}')
         c.check(False, 'query_does_not_raise', sig=sig, info=f'{tag}{type(e).__name__}')
@@ -473,9 +555,27 @@ def h_query(c, query, names, layout='flat', second=None, history='index'):
     for tk in toks:
         _, has_incl = r_query(tk, ())
         c.assume(has_incl)      # a query without include / wildcard term is outside the claim
+    if c.symbolic:
+        _query_scenario(c, fnames, layout, history, mx, paths, queries, toks, [1.0] * len(fnames))
+        return
+    # Concrete replay.  Modification times are free inputs as well; they do not occur in any clause, but they are part of
+    # SharedItem.__hash__ and so decide the iteration order of the candidate set.  A refutation that depends on that
+    # order ("the candidates rejected by the second stage come first") holds for SOME order: the replay looks for modification
+    # times that realise it (the symbolic run has its own order: all names hash alike there).
+    n = len(fnames)
+    attempts = [[1.0] * n] + [[float(x) for x in perm] for perm in itertools.islice(itertools.permutations(range(1, n + 4), n), 40)]
+    for k, mt in enumerate(attempts):
+        before = len(c.concrete_failures)
+        c.note('attempt', k, 'modification times', mt)
+        _query_scenario(c, fnames, layout, history, mx, list(paths), queries, toks, mt)
+        if len(c.concrete_failures) > before:
+            return
+
+
+def _query_scenario(c, fnames, layout, history, mx, paths, queries, toks, mtimes):
     with Env(c):
         if history in ('index', 'incremental'):
-            sm, dirs, items = make_manager(c, fnames, layout, mx)
+            sm, dirs, items = make_manager(c, fnames, layout, mx, mtimes=mtimes)
             if history == 'index':
                 sm.rebuild_term_map()          # as load_from_settings / read_cache do
             else:
@@ -486,7 +586,7 @@ def h_query(c, query, names, layout='flat', second=None, history='index'):
             sm, dirs, _ = make_manager(c, fnames, layout, mx, fill=False)
             last = len(fnames) - 1
             with Disk(c, sm, dirs, fnames, layout) as disk:
-                disk.present = {i: 1.0 for i in range(len(fnames)) if not (history == 'appeared' and i == last)}
+                disk.present = {i: mtimes[i] for i in range(len(fnames)) if not (history == 'appeared' and i == last)}
                 disk.scan_all()
                 if history != 'scan':
                     # searches arrive between scans: the same queries BEFORE the change on disk (the items are looked at by
@@ -495,9 +595,9 @@ def h_query(c, query, names, layout='flat', second=None, history='index'):
                     if history == 'vanished':
                         del disk.present[last]
                     elif history == 'appeared':
-                        disk.present[last] = 1.0
+                        disk.present[last] = mtimes[last]
                     else:
-                        disk.present[last] = 2.0
+                        disk.present[last] = mtimes[last] + 0.5
                     disk.scan_all()
                     _collect()              # what CPython does sooner or later: items nobody refers to are gone
                 if c.symbolic:
@@ -656,6 +756,10 @@ TREES = {
     'T4': {'nodes': [(None, 'r', 0), (0, 'C', 1), (0, 'S', 1), (2, 'C', 1)], 'child': 1},
     # two nested shared directories side by side: the innermost parent of one must never be the other
     'T5': {'nodes': [(None, 'r', 1), (0, 'C', 1), (0, 'S', 1)], 'child': 1, 'child2': 2},
+    # re-nesting: C is shared, scanned and removed again (its items go back to r, keeping a sub-directory relative to
+    # C); then a deeper directory C/D or the sibling S becomes a nested share.  C/S has the sibling's name.
+    'T6': {'nodes': [(None, 'r', 1), (0, 'C', 1), (1, 'D', 1), (1, 'S', 1), (0, 'S', 1)], 'child': 1,
+           'letters': {'D': 2, 'S': 4}},
 }
 HISTORIES = {
     # steps: aO/aC add outer / child, s scan every shared directory, rC/rO remove, ! check the index
@@ -671,7 +775,20 @@ HISTORIES_TWO_NESTED = {            # tree T5 only; aS / rS: the second nested s
     'OCS_s_rS': ['aO', 'aC', 'aS', 's', '!', 'rS', '!', 's', '!'],
     'OSC_s_rC': ['aO', 'aS', 'aC', 's', '!', 'rC', '!', 's', '!'],
 }
-ALL_HISTORIES = {**HISTORIES, **HISTORIES_TWO_NESTED}
+HISTORIES_RENEST = {                # tree T6 only; sD / sS: scan_directory_files of that one directory
+    'OC_s_rC_aD': ['aO', 'aC', 's', 'rC', 'aD', '!'],
+    'OC_s_rC_aD_sD': ['aO', 'aC', 's', 'rC', 'aD', 'sD', '!'],
+    'OC_s_rC_aD_s': ['aO', 'aC', 's', 'rC', 'aD', 's', '!'],
+    'OC_s_rC_aS': ['aO', 'aC', 's', 'rC', 'aS', '!'],
+    'OC_s_rC_aS_sS': ['aO', 'aC', 's', 'rC', 'aS', 'sS', '!'],
+    'OC_s_rC_aS_s': ['aO', 'aC', 's', 'rC', 'aS', 's', '!'],
+    'OC_s_rC_aD_aS_sD': ['aO', 'aC', 's', 'rC', 'aD', 'aS', '!', 'sD', '!', 'sS', '!'],
+}
+ALL_HISTORIES = {**HISTORIES, **HISTORIES_TWO_NESTED, **HISTORIES_RENEST}
+
+
+def histories_of(tree):
+    return HISTORIES_RENEST if tree == 'T6' else (HISTORIES_TWO_NESTED if 'child2' in TREES[tree] else HISTORIES)
 
 
 class Tree:
@@ -806,10 +923,22 @@ def h_index(c, tree, lens, history, symbolic_files=False):
         def scan_directory(*a, **kw):
             # scan_directory_files logs and drops every exception of the scan: keep harness errors visible
             try:
-                return real_scan(*a, **kw)
+                found = real_scan(*a, **kw)
             except Exception as e:
                 errors.append(e)
                 raise
+            if not c.symbolic:
+                return found
+            # string fields the code filled from its own literals (subdir = '') become SStr with the same characters: a
+            # later `item.subdir.startswith(symbolic)` must not end in C code
+            out = set()
+            for it in found:
+                if isinstance(it.subdir, str) or isinstance(it.filename, str):
+                    new = MD.SharedItem(it.shared_directory, S(it.subdir), S(it.filename), it.modified)
+                    new.attributes = it.attributes
+                    it = new
+                out.add(it)
+            return out
         from engine.vloop import VLoop
         with Env(c, t.fs):
             SM.__dict__['scan_directory'] = scan_directory
@@ -820,19 +949,20 @@ def h_index(c, tree, lens, history, symbolic_files=False):
                 sm._build_term_map = lambda shared_directory: None
                 if c.symbolic:
                     seq = iter(range(100))
-                    sm.generate_alias = lambda path, offset=0: f'al{next(seq)}'       # path.encode() is C code
+                    sm.generate_alias = lambda path, offset=0: S(f'al{next(seq)}')    # path.encode() is C code
                 shared = {}
                 which = {'O': 0, 'C': t.spec['child'], 'S': t.spec.get('child2')}
+                which.update(t.spec.get('letters', {}))
                 prev = None
                 for step in ALL_HISTORIES[history]:
                     if step[0] == 'a':
                         shared[which[step[1]]] = sm.add_shared_directory(t.paths[which[step[1]]])
                     elif step[0] == 'r':
                         sm.remove_shared_directory(shared.pop(which[step[1]]))
-                    elif step == 's':
+                    elif step[0] == 's':
                         loop = VLoop()
                         try:
-                            for d in list(sm.shared_directories):
+                            for d in (list(sm.shared_directories) if step == 's' else [shared[which[step[1]]]]):
                                 loop.run_until_complete(sm.scan_directory_files(d))
                             if loop.errors:
                                 raise symex.HarnessError(f'loop errors during scan: {loop.errors!r}')
@@ -843,8 +973,8 @@ def h_index(c, tree, lens, history, symbolic_files=False):
                                 raise symex.HarnessError(f'inside scan_directory: {type(e).__name__}: {e}')
                         c.check(not errors, 'scan_does_not_raise', sig=[tree, history, rel], info=repr(errors[:1]))
                     else:
-                        kind = {'s': 'after_scan', 'aC': 'after_add_nested', 'aS': 'after_add_nested', 'rC': 'after_remove_nested',
-                                'rS': 'after_remove_nested', 'rO': 'after_remove_outer'}[prev]
+                        kind = 'after_scan' if prev == 's' else {'a': 'after_add_nested', 's': 'after_scan_of_one_directory',
+                                                                 'r': 'after_remove_outer' if prev == 'rO' else 'after_remove_nested'}[prev[0]]
                         judge_index(c, sm, t, shared, [tree, history, kind, rel])
                         c.reach('index_judged')
                     prev = step
@@ -1074,13 +1204,16 @@ INDEX_SHAPES = {
               'T2': [{'C': 2, 'D': 1, 'S': 3, 'T': 2}],
               'T3': [{'A': 1, 'C': 2, 'S': 3}],
               'T4': [{'C': 2, 'S': 3}],
-              'T5': [{'C': 2, 'S': 3}, {'C': 3, 'S': 2}]},
+              'T5': [{'C': 2, 'S': 3}, {'C': 3, 'S': 2}],
+              'T6': [{'C': 2, 'D': 2, 'S': 3}]},
     'thorough': {'T1': [{'C': a, 'S': b} for a in range(1, 5) for b in range(1, 5)],
                  'T2': [{'C': 2, 'D': 1, 'S': 3, 'T': 2}, {'C': 2, 'D': 2, 'S': 3, 'T': 4}, {'C': 3, 'D': 1, 'S': 2, 'T': 4},
                         {'C': 1, 'D': 1, 'S': 2, 'T': 3}, {'C': 3, 'D': 3, 'S': 3, 'T': 3}],
                  'T3': [{'A': 1, 'C': 2, 'S': 3}, {'A': 2, 'C': 3, 'S': 2}, {'A': 2, 'C': 2, 'S': 4}, {'A': 3, 'C': 1, 'S': 3}],
                  'T4': [{'C': 2, 'S': 3}, {'C': 1, 'S': 2}, {'C': 3, 'S': 2}, {'C': 2, 'S': 4}],
-                 'T5': [{'C': a, 'S': b} for a in range(1, 5) for b in range(1, 5)]},
+                 'T5': [{'C': a, 'S': b} for a in range(1, 5) for b in range(1, 5)],
+                 'T6': [{'C': 2, 'D': 2, 'S': 3}, {'C': 3, 'D': 1, 'S': 2}, {'C': 2, 'D': 2, 'S': 2}, {'C': 1, 'D': 3, 'S': 4},
+                        {'C': 3, 'D': 3, 'S': 3}]},
 }
 
 
@@ -1121,7 +1254,7 @@ def jobs(tier):
                         'requires': ['containment_decided', 'is_parent_of_is_component_wise', 'parent_directories_are_the_ancestors']})
     for tree, lens_list in INDEX_SHAPES['quick' if quick else 'thorough'].items():
         for lens in lens_list:
-            for hist in (HISTORIES_TWO_NESTED if 'child2' in TREES[tree] else HISTORIES):
+            for hist in histories_of(tree):
                 for symf in ((False,) if quick else (False, True)):
                     out.append(_ijob(tree, lens, hist, symf))
     # --- the query itself ---
@@ -1211,6 +1344,17 @@ META = {
               'os.path.commonpath / relpath / normpath / abspath / join as transcriptions of posixpath that fork on separator positions and '
               'component equalities (validated against posixpath and a real os.walk in prelude), getmtime = the model value',
               '`isinstance` in shares.manager / shares.model: an SStr counts as str (SStr is not a str subclass)',
+              'every path-like string is an SStr in symbolic runs, also fully concrete ones: directory paths, aliases, sub-directories and file '
+              'names the harness builds; os.sep / curdir / pardir of the os stand-in; the items returned by scan_directory are rebuilt with SStr '
+              'fields when the code filled them from its own literals (subdir = ""). A method of a plain str called with an SStr argument is C '
+              'code and ends in a harness error (exit 3), never in a verdict',
+              'SInt.__index__ / __int__ while the environment is active: forking concretisation for up to 128 values (max_results has 100) that '
+              'remembers an engine error on the context -- C callers (islice, slice.indices) replace any exception of __index__ by their own '
+              'ValueError, which would otherwise look like an exception of the code under test',
+              '`islice` / `itertools` in the modules under test (if imported) -> an islice whose symbolic stop is compared before each fetch '
+              '(one fork per element instead of one path per value)',
+              'concrete replay of query jobs: modification times (free inputs, part of SharedItem.__hash__, hence of the candidate set order) '
+              'are searched over <= 41 assignments for one that realises an order-dependent refutation',
               'h_index: SharesManager.generate_alias -> al0, al1, ... (path.encode() + uuid is C code; symbolic runs only); '
               '_build_term_map -> no-op on the instance (the term map is the other half; building it would only fork over word characters '
               'of directory names); scan_directory is called through a wrapper that records its exceptions (scan_directory_files logs and '
@@ -1231,21 +1375,21 @@ META = {
                       'how the index came about (rebuild from items / per-directory build + clean-up / scan / scan, the queries, a file vanishes | appears | '
                       'changes, rescan, garbage collection, the queries again)',
                       'a second query on the same manager',
-                      'h_index: tree shape (T1..T5), name lengths, history (order of add outer / add nested / scan / remove nested / remove outer; 9 '
-                      'histories), whether a sibling name is a string-prefix extension of the nested directory\'s name (decided by a fork, part '
+                      'h_index: tree shape (T1..T6), name lengths, history (order of add outer / add nested / scan / remove nested / remove outer / add a '
+                      'deeper or sibling nested directory after the removal / scan of that one directory; 16 histories), whether a sibling name is a string-prefix extension of the nested directory\'s name (decided by a fork, part '
                       'of the signature)',
                       'separator masks, word equalities, match outcomes: decided by forking inside the code under test'],
     'bounds': {
         'quick': {'files': '2 (3 in the rescan jobs)', 'free_name_characters': '2..3 per file (one template ~~ ~~)', 'queries': len(QUERIES_QUICK),
                   'symbolic_query_templates': len(QUERIES_SYMBOLIC_QUICK), 'layouts': ['flat', 'sub', 'two'],
                   'pattern_string_length': '0..4', 'selfcheck_string_length': '0..2',
-                  'containment_paths': '0..5 free characters each', 'index_trees': 'T1..T5, 1..3 name-length combinations each, all histories'},
+                  'containment_paths': '0..5 free characters each', 'index_trees': 'T1..T6, 1..3 name-length combinations each, all histories (T6: 7 re-nesting histories)'},
         'thorough': {'files': '2..4', 'free_name_characters': '2..4 per file, <= 8 in total (templates with pinned blanks / . / - up to 6 characters)',
                      'queries': len(QUERIES_THOROUGH), 'symbolic_query_templates': len(QUERIES_SYMBOLIC), 'layouts': sorted(LAYOUTS),
                      'histories': ['index', 'incremental', 'scan', 'vanished', 'appeared', 'changed'], 'query_pairs': 6,
                      'pattern_string_length': '0..7', 'selfcheck_string_length': '0..3',
                      'containment_paths': '0..7 free characters each',
-                     'index_trees': 'T1..T5, names 1..4 characters (T1/T5: all 16 length pairs), all histories, with concrete and symbolic file names'}},
+                     'index_trees': 'T1..T6, names 1..4 characters (T1/T5: all 16 length pairs; T6: 5 combinations x 7 re-nesting histories), all histories, with concrete and symbolic file names'}},
     'outside': ['of the indexing half: the real os.walk on a real disk in symbolic runs (replays do use it), symlinks, permission / OSError paths of '
                 'the scan, Windows path semantics (ntpath, drive letters, case-insensitive names), file attribute extraction (mutagen), '
                 'update_shared_directory, load_from_settings, the shares cache (cache.py re-points item.shared_directory on read), more than one '
